@@ -598,12 +598,18 @@ func parsePaths(result *Policy, list *ast.ObjectList, performTemplating bool, bl
 			if err != nil {
 				return fmt.Errorf("error parsing min_wrapping_ttl: %w", err)
 			}
+			if dur < 0 {
+				return fmt.Errorf("path %q: min_wrapping_ttl cannot be negative", key)
+			}
 			pc.Permissions.MinWrappingTTL = dur
 		}
 		if pc.MaxWrappingTTLHCL != nil {
 			dur, err := parseutil.ParseDurationSecond(pc.MaxWrappingTTLHCL)
 			if err != nil {
 				return fmt.Errorf("error parsing max_wrapping_ttl: %w", err)
+			}
+			if dur < 0 {
+				return fmt.Errorf("path %q: max_wrapping_ttl cannot be negative", key)
 			}
 			pc.Permissions.MaxWrappingTTL = dur
 		}
